@@ -77,9 +77,15 @@ class Cfg:
 
 
 class Gen:
-    def __init__(self, rng, commands, profile="mixed"):
+    def __init__(self, rng, commands, profile="mixed", focus=None):
         self.rng = rng
         self.profile = profile
+        self.focus = focus
+        self.joined = []
+        self.used_nicks = []
+        # the HTTP handlers cut posted text at the first CR/LF/NUL; most histories are generated the
+        # way they can arrive through the API, some feed the state machine raw text
+        self.sanitize = rng.random() < 0.85
         self.client_cmds = sorted(c["Name"] for c in commands if not c["Name"].startswith("server_") and not c["EnvGuard"])
         self.server_cmds = sorted(c["Name"][7:] for c in commands if c["Name"].startswith("server_"))
         self.minparams = {c["Name"]: c["MinParams"] for c in commands}
@@ -100,6 +106,11 @@ class Gen:
 
     def entry(self, ty, sid=0, sreply=0, data="", cmid=0, rev=0, addr="", cfg=None, un=None):
         i = self.tick()
+        if self.sanitize and ty in (1, 2):
+            for k, ch in enumerate(data):
+                if ch in "\r\n\x00":
+                    data = data[:k]
+                    break
         line = "E %d %d %d %d %d %d %d %s %s" % (ty, i, sid, sreply, self.now if un is None else un, cmid, rev, hx(addr), hx(data))
         if cfg is not None:
             line += " " + cfg
@@ -142,9 +153,13 @@ class Gen:
 
     # -- IRC text ----------------------------------------------------------------------------
     def nick(self):
+        if self.used_nicks and self.rng.random() < 0.55:
+            return self.rng.choice(self.used_nicks)
         return self.rng.choice(NICKS)
 
     def chan(self):
+        if self.joined and self.rng.random() < 0.6:
+            return self.rng.choice(self.joined)
         return self.rng.choice(CHANS)
 
     def some_sid(self):
@@ -172,6 +187,8 @@ class Gen:
         if cmd == "OPER":
             return "OPER %s %s" % r.choice(OPERS + [("op", "bad"), ("x", "y")])
         if cmd == "JOIN":
+            if "," not in c and c not in self.joined:
+                self.joined.append(c)
             return "JOIN %s%s" % (c, r.choice(["", "", " " + r.choice(KEYS)]))
         if cmd in ("PART", "NAMES", "WHO", "LIST", "KNOCK"):
             return "%s %s%s" % (cmd, c, r.choice(["", "", " :" + t]))
@@ -240,6 +257,8 @@ class Gen:
         x = r.random()
         if s["server"]:
             cmd = r.choice(self.server_cmds)
+            if self.focus and self.focus in self.server_cmds and r.random() < 0.4:
+                cmd = self.focus
             text = self.plausible(cmd, server=True) if x < 0.8 else self.random_shape(cmd)
             if r.random() < 0.9:
                 text = ":%s %s" % (r.choice(self.svcnicks or SVCNICKS + [self.nick()]), text)
@@ -249,6 +268,10 @@ class Gen:
             self.count("garbage")
         else:
             cmd = r.choice(self.client_cmds)
+            if self.focus and self.focus in self.client_cmds and r.random() < 0.4:
+                cmd = self.focus
+            elif r.random() < 0.25:
+                cmd = r.choice(["JOIN", "JOIN", "PART", "MODE", "TOPIC", "KICK", "PRIVMSG", "INVITE", "NICK"])
             text = self.plausible(cmd) if x < 0.85 else self.random_shape(cmd)
             self.count(cmd)
         if r.random() < 0.03:
@@ -264,6 +287,8 @@ class Gen:
         self.line(sid, "USER %s 0 * :%s" % (self.rng.choice(["u", "blah"]), "Real " + nick))
         self.sessions[sid]["registered"] = True
         self.sessions[sid]["nick"] = nick
+        if nick and nick not in self.used_nicks:
+            self.used_nicks.append(nick)
 
     def services_link(self):
         sid = self.create(kind=SERVER)
@@ -273,6 +298,9 @@ class Gen:
         for n in self.rng.sample(SVCNICKS, self.rng.choice([1, 2, 3])):
             self.line(sid, "NICK %s 1 1 services localhost.net services.localhost.net 0 :%s" % (n, n))
             self.svcnicks.append(n)
+            for _ in range(self.rng.choice([0, 1, 2, 2])):
+                self.line(sid, ":%s JOIN %s" % (n, self.rng.choice((self.joined or []) + ["#a", "#b", "#secret"])))
+        self.links = getattr(self, "links", []) + [sid]
         return sid
 
     def history(self, length):
@@ -317,6 +345,8 @@ class Gen:
                 # retry with the same client message id (C10)
                 s = r.choice(live)
                 self.line(s, self.plausible("PRIVMSG"), cmid=self.sessions[s]["cmid"])
+            elif x < 0.30 and getattr(self, "links", None):
+                self.client_line(r.choice(self.links))
             else:
                 self.client_line(r.choice(live))
         self.ops.append("D")
@@ -324,10 +354,10 @@ class Gen:
         return self.ops
 
 
-def gen_histories(rng, commands, n, length):
+def gen_histories(rng, commands, n, length, focus=None):
     out, kinds = [], {}
     for _ in range(n):
-        g = Gen(rng, commands)
+        g = Gen(rng, commands, focus=focus)
         out.append(g.history(rng.randrange(max(5, length // 4), length)))
         for k, v in g.kinds.items():
             kinds[k] = kinds.get(k, 0) + v
